@@ -113,11 +113,11 @@ impl Check for C14 {
     }
     fn cases(&self, tier: Tier) -> u64 {
         match tier {
-            Tier::Quick => 1200,
+            Tier::Quick => 1200 + 39,
             Tier::Thorough => 24000,
         }
     }
-    fn gen(&self, seed: u64, i: u64, _tier: Tier) -> Value {
+    fn gen(&self, seed: u64, i: u64, tier: Tier) -> Value {
         let r = Rng::new(crate::harness::case_seed(seed, "C14", i));
         let setups = Setup::all_extended();
         let mut setup = setups[(i % setups.len() as u64) as usize].clone();
@@ -127,12 +127,32 @@ impl Check for C14 {
             setup.out_style = *sr.pick(&[crate::world::OutStyle::Plain, crate::world::OutStyle::Plain, crate::world::OutStyle::TrailingSlash, crate::world::OutStyle::DotDot, crate::world::OutStyle::Absolute, crate::world::OutStyle::NoDotSlash]);
         }
         let mut gp = GenParams::swarm(&mut r.split("params"));
+        // directed block at the end of both tiers (quick: 39 worlds = every setup x 3, thorough:
+        // the last 500): commands with SEVERAL Channel<T> parameters (generated commands have at
+        // most one) - whatever the record keeps per command as a collection meets more than one element
+        let multi_chan = match tier {
+            Tier::Quick => i >= 1200,
+            Tier::Thorough => i >= 23500,
+        };
+        if multi_chan {
+            gp.n_cmds = gp.n_cmds.clamp(1, 2);
+        }
         // the quantifier names 1..6 source files: stratify
         gp.n_files = 1 + ((i / setups.len() as u64) % 6) as usize;
         let mut mr = r.split("model");
         let mut model = gen_model(&mut mr, &gp);
         let mut flags = vec![];
         super::c13::add_specials(&mut mr, &mut model, &mut flags, true);
+        if multi_chan {
+            let mut cr = r.split("channels");
+            for _ in 0..(4 + cr.below(3)) {
+                if let Some((m2, _)) = crate::edits::gen_edit(&mut cr, "add_channel", &model) {
+                    model = m2;
+                }
+            }
+            let most = model.commands().iter().map(|c| c.chans.len()).max().unwrap_or(0);
+            flags.push(format!("channels={}", most));
+        }
         // "for projects of any number of files": a ninth of the worlds have 17..70 of them
         if (i / setups.len() as u64) % 9 == 4 {
             let mut wr = r.split("widen");
